@@ -54,6 +54,7 @@ func stdBalances() map[string]sdk.Coins {
 		"bid3":  coins("40acoin,40bcoin"),
 		"out1":  coins("40acoin,40bcoin"),
 		"donor": coins("40acoin,40bcoin"),
+		"poor":  coins("1acoin,2bcoin"),
 	}
 }
 
@@ -364,4 +365,82 @@ func S2c(tier string, rate string, period uint32) *Scenario {
 		}
 	}
 	return scenFrom(fmt.Sprintf("S2c-extension-rate%s-period%d", rate, period), cfg, pre, bud, al, nil)
+}
+
+// withBudget overrides budgets (used to build the smaller state sets on which the wide probe and
+// query alphabets are applied).
+func (s *Scenario) withBudget(b Budget, suffix string) *Scenario {
+	for k, v := range b {
+		s.Budget[k] = v
+	}
+	s.Name += suffix
+	return s
+}
+
+// withProbes adds the C18 field-alphabet probes to the menu of every state.
+func (s *Scenario) withProbes(pairs bool) *Scenario {
+	inner := s.Menu
+	s.Menu = func(st *ref.State, b Budget) []Op {
+		return append(inner(st, b), Probes(st, pairs)...)
+	}
+	s.Budget["probe"] = 1
+	s.Name += "+probes"
+	if pairs {
+		s.Name += "-pairs"
+	}
+	s.Params["probes"] = map[string]any{"pairs": pairs}
+	return s
+}
+
+// S3x: two auctions of the SAME kind and denominations created in the preamble (twin fixed-price
+// auctions), same bidders allow-listed with different caps: the sharpest setting for "a bidder's
+// allowance and bids in one auction never affect what the same bidder may do in another".
+func S3x(tier string) *Scenario {
+	cfg := world.Config{Balances: stdBalances(), Params: params("", "1bcoin", 1)}
+	pre := []Op{
+		{Kind: "create_fixed", Signer: "auc1", StartPrice: "1", Sell: "10acoin", PayDenom: "bcoin", StartK: 0, EndK: 2},
+		{Kind: "create_fixed", Signer: "auc1", StartPrice: "1", Sell: "10acoin", PayDenom: "bcoin", StartK: 0, EndK: 3, Sched: sched(4, 5)},
+		{Kind: "add_allowed", AID: 0, Bidder: "bid1", Max: "5"},
+		{Kind: "add_allowed", AID: 1, Bidder: "bid1", Max: "5"},
+		{Kind: "add_allowed", AID: 1, Bidder: "bid2", Max: "10"},
+	}
+	al := &Alphabet{
+		Bidders: []string{"bid1", "bid2"}, AllowBidders: []string{"bid1", "bid2"},
+		AllowCaps: []string{"10"}, UpdateCaps: []string{"2"},
+		FixedAmts:  fixedAmtsS3x(tier),
+		Cancellers: []string{"auc1"},
+		MaxK:       6, BlockStops: []int{2, 3, 4, 5}, Rejects: true, RejectsTerm: true,
+	}
+	bud := Budget{"allow": 1, "update": 1, "bid": 3, "block": 4}
+	if tier == "thorough" {
+		bud = Budget{"allow": 1, "update": 1, "bid": 5, "block": 4, "tick": 1}
+	}
+	return scenFrom("S3x-twin-fixed", cfg, pre, bud, al, nil)
+}
+
+// S1p: a bidder who can barely pay: "insufficient funds" for the fee and for the reservation is
+// reached through history, on a fixed-price and on a batch auction.
+func S1p(tier string) *Scenario {
+	cfg := world.Config{Balances: stdBalances(), Params: params("", "1bcoin", 1)}
+	pre := []Op{
+		{Kind: "create_fixed", Signer: "auc1", StartPrice: "1", Sell: "10acoin", PayDenom: "bcoin", StartK: 0, EndK: 2},
+		{Kind: "create_batch", Signer: "auc1", StartPrice: "1", MinPrice: "0.5", Sell: "10acoin", PayDenom: "bcoin", StartK: 0, EndK: 2, MaxExt: 0, Rate: "0.5"},
+		{Kind: "add_allowed", AID: 0, Bidder: "poor", Max: "10"},
+		{Kind: "add_allowed", AID: 1, Bidder: "poor", Max: "10"},
+	}
+	al := &Alphabet{
+		Bidders: []string{"poor"}, FixedAmts: []string{"1", "2"},
+		BatchPrices: []string{"1"}, WorthAmts: []string{"1", "2"}, ManyAmts: []string{"1", "2"},
+		ModPrices: []string{"2"}, ModAmts: []string{"3"},
+		MaxK: 3, BlockStops: []int{2, 3},
+	}
+	bud := Budget{"bid": 3, "mod": 2, "block": 2}
+	return scenFrom("S1p-poor-bidder", cfg, pre, bud, al, nil)
+}
+
+func fixedAmtsS3x(tier string) []string {
+	if tier == "thorough" {
+		return []string{"2", "3", "5"}
+	}
+	return []string{"2", "5"}
 }
